@@ -9,6 +9,7 @@ import (
 	"strings"
 
 	"verif/checker/cfgx"
+	"verif/checker/report"
 )
 
 // RuleU1: an unsigned conversion of len(x)-K (or x.Len()-K) wraps around when the
@@ -292,6 +293,7 @@ func lenFactR(info *types.Info, fa cfgx.Fact, resolve func(ast.Expr) ast.Expr) (
 func RuleIX1(c *Ctx) {
 	sc := c.Run.Begin("IX1", "every string/byte-slice parameter that is indexed at a fixed end without a length test in the function receives, at every static call site, a value that is non-empty by construction (raw lexeme value, constant-length slice, literal, tested value)", 1)
 	defer sc.End()
+	c.ix1ZeroLocals(sc)
 	lexT := c.Named("scanner", "Lexeme")
 	perFn := map[*ast.FuncDecl]int{}
 	var nonEmptyArg func(cs callSite, arg ast.Expr, depth int) (bool, string)
@@ -574,4 +576,122 @@ func transformedLexemeValue(cs callSite, arg ast.Expr, lexT *types.Named, c *Ctx
 		e = ast.Unparen(cf.Resolve(r))
 	}
 	return false
+}
+
+// ix1ZeroLocals: a local string that starts as "" (`var s string`, `s := ""`) and is indexed
+// at a constant position is, on every path from its declaration to the index, either
+// assigned or found non-empty first. A path on which it still has its zero value when
+// indexed is a certain panic for whatever input takes that path (an `or` alternative
+// without a type, say).
+func (c *Ctx) ix1ZeroLocals(sc *report.RuleScope) {
+	perFn := map[*ast.FuncDecl]int{}
+	c.P.Funcs(func(pk *pkgT, fd *ast.FuncDecl) {
+		info := pk.TypesInfo
+		zero := map[types.Object]ast.Node{}
+		ast.Inspect(fd.Body, func(x ast.Node) bool {
+			switch d := x.(type) {
+			case *ast.DeclStmt:
+				if gd, ok := d.Decl.(*ast.GenDecl); ok && gd.Tok == token.VAR {
+					for _, sp := range gd.Specs {
+						vs, ok := sp.(*ast.ValueSpec)
+						if !ok || len(vs.Values) != 0 {
+							continue
+						}
+						for _, nm := range vs.Names {
+							if o := info.ObjectOf(nm); o != nil {
+								if b, ok := o.Type().Underlying().(*types.Basic); ok && b.Info()&types.IsString != 0 {
+									zero[o] = d
+								}
+							}
+						}
+					}
+				}
+			case *ast.AssignStmt:
+				if d.Tok == token.DEFINE && len(d.Lhs) == len(d.Rhs) {
+					for i, l := range d.Lhs {
+						if tv, ok := info.Types[d.Rhs[i]]; ok && tv.Value != nil && tv.Value.Kind() == constant.String && constant.StringVal(tv.Value) == "" {
+							if id, ok := l.(*ast.Ident); ok && info.Defs[id] != nil {
+								zero[info.Defs[id]] = d
+							}
+						}
+					}
+				}
+			}
+			return true
+		})
+		if len(zero) == 0 {
+			return
+		}
+		ast.Inspect(fd.Body, func(x ast.Node) bool {
+			ix, ok := x.(*ast.IndexExpr)
+			if !ok {
+				return true
+			}
+			id, ok := ast.Unparen(ix.X).(*ast.Ident)
+			if !ok {
+				return true
+			}
+			obj := info.ObjectOf(id)
+			decl, isZero := zero[obj]
+			if !isZero {
+				return true
+			}
+			if tv, ok := info.Types[ix.Index]; !ok || tv.Value == nil {
+				return true
+			}
+			body := innermostBody(fd, ix)
+			if db := innermostBody(fd, decl); db.body != body.body {
+				return true // declared outside the closure that indexes it: not followed
+			}
+			cf := c.CFG(pk, body.body)
+			nonEmpty := func(fa cfgx.Fact) bool {
+				be, ok := ast.Unparen(fa.Expr).(*ast.BinaryExpr)
+				if !ok {
+					return false
+				}
+				mentions := func(e ast.Expr) bool {
+					hit := false
+					ast.Inspect(e, func(y ast.Node) bool {
+						if i2, ok := y.(*ast.Ident); ok && info.ObjectOf(i2) == obj {
+							hit = true
+						}
+						return true
+					})
+					return hit
+				}
+				switch be.Op {
+				case token.NEQ, token.EQL:
+					// s != "" true / s == "" false
+					for _, pair := range [][2]ast.Expr{{be.X, be.Y}, {be.Y, be.X}} {
+						if tv, ok := info.Types[pair[1]]; ok && tv.Value != nil && tv.Value.ExactString() == `""` && mentions(pair[0]) {
+							return (be.Op == token.NEQ) == fa.Truth
+						}
+					}
+				case token.GTR, token.GEQ, token.LSS, token.LEQ:
+					return mentions(be.X) || mentions(be.Y) // a length comparison involving s
+				}
+				return false
+			}
+			assigned := func(nd ast.Node) bool {
+				as, ok := nd.(*ast.AssignStmt)
+				if !ok || nd == decl {
+					return false
+				}
+				for _, l := range as.Lhs {
+					if lid, ok := l.(*ast.Ident); ok && info.ObjectOf(lid) == obj {
+						return true
+					}
+				}
+				return false
+			}
+			perFn[fd]++
+			key := fmt.Sprintf("zero-local:%s:%s#%d", c.P.DeclName(fd), id.Name, perFn[fd])
+			if cf.MustAt(ix, nonEmpty, assigned, func(nd ast.Node) bool { return nd == decl }) {
+				sc.Holds(key, c.P.Pos(ix.Pos()), "assigned or found non-empty on every path before the index")
+			} else {
+				sc.Violation(key, c.P.Pos(ix.Pos()), fmt.Sprintf("%s is declared empty, assigned only on some paths, and indexed at a fixed position without a non-emptiness test: on the remaining path it is still \"\" and the index panics", id.Name))
+			}
+			return true
+		})
+	})
 }
